@@ -151,6 +151,16 @@ theorem concat_not_injective :
      (get concatKey conv [] ⟨"au", "int8", false⟩).2 = .ok (.val "int8" "1")) := by
   decide
 
+/-- Keying by (key, NAME of the type) is not injective either: two distinct types may print the
+same (`Req.ty` is the type's identity, `tyName` its printed name). -/
+theorem typeName_not_injective (tyName : String → String) (a b : String) (hab : a ≠ b)
+    (hn : tyName a = tyName b) :
+    ¬ Function.Injective (fun r : Req => ((r.key, tyName r.ty), r.iface)) := by
+  intro hinj
+  have := hinj (a₁ := ⟨"k", a, false⟩) (a₂ := ⟨"k", b, false⟩) (by simp [hn])
+  simp at this
+  exact hab this
+
 /-- At the pinned commit `Get[any]` on a YAML null panicked. -/
 theorem legacy_nil_assert_panics : assertToLegacy ⟨"k", "<nil>", true⟩ .nil = .panic := rfl
 
